@@ -1,11 +1,14 @@
 package v2
 
 import (
+	"encoding/json"
+	"fmt"
 	"os"
 	"strings"
 	"sync"
 	"time"
 
+	"verif/harness/internal/tla"
 	"verif/harness/internal/tlc"
 	"verif/harness/internal/vrun"
 )
@@ -137,6 +140,9 @@ func Run(ctx *vrun.Ctx) error {
 	ctx.Assume("symbolic cryptography: ChaCha20, Poly1305, HKDF and ECDH are ideal (a ciphertext opens only under the same key, nonce and associated data); collisions of random garbage/ciphertext bytes with the 16-byte terminator are ignored")
 	ctx.Assume("ElligatorSwift field arithmetic (XSwiftEC and its inverse) is not specified in TLA+; it is exercised only: encode->decode equality in every reference handshake, both sides reach equal secrets, BIP324 decode/ECDH vectors")
 	ctx.Assume("channel faults act on whole protocol units in flight (byte flips at seeded offsets inside a unit, truncation inside a unit, drop/duplicate/swap of units); key units are only flipped or truncated")
+	if ctx.Replay != "" {
+		return replayFile(ctx)
+	}
 	if err := pinReference(ctx); err != nil {
 		return err
 	}
@@ -175,5 +181,49 @@ func Run(ctx *vrun.Ctx) error {
 		}
 	}
 	summarise(ctx, st)
+	return nil
+}
+
+// replayFile re-runs the session stored in a replay file (check.sh C19 quick
+// --replay <path>) against the current tree.
+func replayFile(ctx *vrun.Ctx) error {
+	b, err := os.ReadFile(ctx.Replay)
+	if err != nil {
+		return err
+	}
+	var f struct {
+		Seed   int64 `json:"seed"`
+		Replay struct {
+			Session   string   `json:"session"`
+			Pairing   string   `json:"pairing"`
+			RealRI    bool     `json:"real_rekey_interval"`
+			Behaviour []string `json:"behaviour"`
+		} `json:"replay"`
+	}
+	if err := json.Unmarshal(b, &f); err != nil {
+		return err
+	}
+	var states []tla.State
+	for _, t := range f.Replay.Behaviour {
+		st, err := tla.ParseState(t)
+		if err != nil {
+			return err
+		}
+		states = append(states, st)
+	}
+	if len(states) < 2 {
+		return fmt.Errorf("replay file holds no behaviour")
+	}
+	pp := strings.SplitN(f.Replay.Pairing, "<->", 2)
+	if len(pp) != 2 {
+		return fmt.Errorf("replay file: bad pairing %q", f.Replay.Pairing)
+	}
+	ctx.Seed = f.Seed
+	s := &session{ctx: ctx, id: f.Replay.Session, pair: pairing{pp[0], pp[1]}, rng: ctx.Rand(f.Replay.Session), realRI: f.Replay.RealRI, job: "replay"}
+	if err := s.run(states); err != nil {
+		return err
+	}
+	ctx.AddTraces(1)
+	ctx.Logf("replayed %s (%d states): diverged=%v", f.Replay.Session, len(states), s.diverged)
 	return nil
 }
